@@ -78,8 +78,8 @@ package compiler
 //@   trusted
 //@   requires c != nil
 //@   modifies nothing
-//@   ensures len(result) == 0 ==> forall(n, string, c.calls != nil && has(c.calls, n) ==> vmHas(n))
-//@   loop 1 invariant (len(names) == 0 ==> forall(n, string, visited(1, n) ==> vmHas(n))) && (cap(names) == 0 || fresh(names))
+//@   ensures forall(n, string, c.calls != nil && has(c.calls, n) && !vmHas(n) ==> exists(i, 0, len(result), result[i] == n))
+//@   loop 1 invariant forall(n, string, visited(1, n) && !vmHas(n) ==> exists(i, 0, len(names), names[i] == n)) && (cap(names) == 0 || fresh(names))
 
 // ---- constant folding (C03): a folded operation must be the literal the language oracle (contracts/lang.spec)
 // ---- assigns to the operation on those operands - the same oracle the VM's operators are verified against
